@@ -249,7 +249,7 @@ def run_shard(spec, ctx):
     core.enum_shard(core.sliced(alias_cases(all_shapes=not ctx.quick), ctx.index, ctx.nshards), check_case, ctx, rec=rec)
     if rec.violations:
         return rec
-    n = ctx.pick(800, 7000)
+    n = ctx.pick(640, 8500)
     small = n // 2
     core.hyp_shard(case_strategy(4, 25), check_case, ctx, small, rec=rec, tag="small")
     if rec.violations:
